@@ -1027,6 +1027,51 @@ def _mem_handles(ctx, compare=True):
     return res
 
 
+LATE_PLANS = [
+    [("late", "MLSD d", ["RNFR d", "RNTO done"])], [("late", "LIST d", ["RNFR d", "RNTO done"])], [("late", "LIST e", ["RMD e", "MKD e", "MKD e/new"])],
+    [("late", "MLSD e", ["RMD e", "MKD e", "MKD e/new"])], [("late", "LIST d", ["DELE d/g.txt"])], [("late", "MLSD", ["MKD fresh"])], [("late", "LIST", ["DELE f.txt"])],
+    [("late", "RETR f.txt", ["DELE f.txt"])], [("late", "RETR f.txt", ["RNFR f.txt", "RNTO g.txt"])], [("late", "STOR n.bin", ["MKD n.bin"])], [("late", "APPE f.txt", ["DELE f.txt"])],
+    [("late", "MLSD d", ["RMD d/sub", "DELE d/g.txt", "RMD d"])],
+]
+
+
+def _late_across_backends(ctx, res):
+    """a transfer command is accepted, the tree changes under it (the same session goes on sending commands), and only
+    then the data connection is made: what the transfer then delivers, answers and leaves behind is the same on every
+    backend - each of them looks the path up WHEN THE WORKER STARTS, not before"""
+    import latewire as LW
+
+    users = S.USERS_ANON
+    jobs = [(users, [None] * len(users), S.TREE, plan, ["USER bob"], LW.PAYLOAD, be) for plan in LATE_PLANS for be in ("memory", "pathio", "async")]
+    outs = LW.run_many(jobs)
+    for i, plan in enumerate(LATE_PLANS):
+        m, p_, a = outs[3 * i : 3 * i + 3]
+        res.cases += 1
+        res.count("late_data_connection_across_backends")
+        inp = {"level": "ftp-late", "plan": [list(x) for x in plan]}
+        if any(isinstance(x, str) or not x for x in (m, p_, a)):
+            res.disagreements.append({"correspondence": "C18 late harness", "input": inp, "impl": [x if isinstance(x, str) else "ok" for x in (m, p_, a)]})
+            continue
+        res.distinct.add(("late", repr(plan)))
+
+        def view(recs):
+            r = recs[-1]
+            data = r.get("data")
+            names = None
+            if data is not None and plan[0][1].split(" ")[0] in ("LIST", "MLSD"):
+                names = sorted((ln.rsplit(" ", 1)[-1] if plan[0][1].startswith("LIST") else ln.partition(" ")[2]) for ln in data.decode("utf-8", "replace").split("\r\n") if ln)
+                data = None
+            return {"replies": r["replies"], "data": data, "listed": names, "tree": r["tree1"]}
+
+        vm = view(m)
+        for name, other in (("pathio", view(p_)), ("async", view(a))):
+            if other != vm:
+                diff = [k for k in vm if vm[k] != other[k]]
+                res.oracle_failures.append({"input": inp, "what": "%r accepted, then %r, then the data connection: memory and %s differ in %r (memory: %r; %s: %r)" % (
+                    plan[0][1], plan[0][2], name, diff, {k: vm[k] for k in diff if k != "tree"}, name, {k: other[k] for k in diff if k != "tree"}), "signature": "C18:late-data-connection:backends-differ"})
+                break
+
+
 def two_session_scripts(ctx):
     firsts = [["RETR f.txt"], ["CWD d"], ["MLST d/g.txt"], ["RETR d/g.txt"], ["CWD d", "MLST g.txt"], ["LIST d"], ["RNFR f.txt"]]
     changes = [["DELE f.txt"], ["DELE d/g.txt"], ["RNFR d", "RNTO e2"], ["RNFR d", "RNTO e2", "MKD d"], ["DELE f.txt", "MKD f.txt"], ["RNFR f.txt", "RNTO d/f.txt"],
@@ -1066,6 +1111,7 @@ def _two_sessions(ctx):
                 res.oracle_failures.append({"input": inp, "what": "two sessions on one tree, the same script: " + what, "signature": "C18:two-sessions:backends-differ"})
                 break
     _mid_transfers(ctx, res)
+    _late_across_backends(ctx, res)
     return res
 
 
@@ -1128,6 +1174,13 @@ def _replay_two(inp):
 def replay(ctx, doc):
     if doc["failure"]["input"].get("level") == "ftp-two-sessions":
         return _replay_two(doc["failure"]["input"])
+    if doc["failure"]["input"].get("level") == "ftp-late":
+        r = Result()
+        _late_across_backends(ctx, r)
+        hit = [f for f in r.oracle_failures if f["input"] == doc["failure"]["input"]]
+        for f in hit:
+            print(f["what"])
+        return bool(hit)
     if doc["failure"]["input"].get("level") == "memory-handles":
         i = doc["failure"]["input"]
         out = _memh_impl(i["content"], [tuple(e) for e in i["events"]])
